@@ -1,7 +1,7 @@
 (* C08 - Indexing and pointwise evaluation agree with dense indexing.
    Only theorem statements closed by `exact`, each followed by Print Assumptions. *)
 From Coq Require Import List Arith ZArith.
-From TT Require Import RingSig SumN Mat Dense Core Arith Reduce Struct Index CoreP ArithP StructP ReduceDimsP IndexP.
+From TT Require Import RingSig SumN Mat Dense Core Arith Reduce Struct Index CoreP ArithP StructP ReduceDimsP IndexP GetitemP.
 Import ListNotations.
 
 Section C08.
@@ -39,9 +39,20 @@ Theorem C08_norm_int_in_range n z j : norm_int n z = Some j ->
   (j < n)%nat /\ (Z.of_nat j = if (z <? 0)%Z then z + Z.of_nat n else z)%Z.
 Proof. exact (norm_int_in_range n z j). Qed.
 
+(* THE COMPOSITE STATEMENT for full tuples of integers (negative allowed) and slices (start/stop/step, None, negative, clipped):
+   whenever the index expression is valid for the dense array (dgi, the model of numpy/torch basic indexing, returns a result shape
+   shp and a source-index map g) and contains at least one slice, x[index] is a TT tensor y with  y[idx'] = x[g idx']  for every
+   position idx' of the result - same values, same positions, for every order, mode sizes (1 included) and rank profile *)
+Theorem C08_getitem_int_slice_full (x : tt R) ix fs shp g :
+  x <> [] -> item_fs (shape x) ix = Some fs -> dgi ix (shape x) = Some (shp, g) -> existsb is_slice ix = true ->
+  exists y, getitem_tuple x ix = GT y /\
+            forall idx', length idx' = length shp -> entry y idx' = entry x (g idx').
+Proof. exact (getitem_int_slice_full x ix fs shp g). Qed.
+
 End C08.
 Print Assumptions C08_apply_mask_full.
 Print Assumptions C08_remaps_entry.
 Print Assumptions C08_reduce_dims_full.
 Print Assumptions C08_slice_pos_in_range.
 Print Assumptions C08_norm_int_in_range.
+Print Assumptions C08_getitem_int_slice_full.
